@@ -107,6 +107,11 @@ func guardSitesOf(p *Prog, fn *ssa.Function) []guardSite {
 			case *ssa.Store:
 				if fa, ok := x.Addr.(*ssa.FieldAddr); ok {
 					name = "store:" + fieldName(fa)
+				} else if ia, ok := x.Addr.(*ssa.IndexAddr); ok {
+					// `l[j] = x; j++`: which elements a filter keeps
+					if _, isSlice := ia.X.Type().Underlying().(*types.Slice); isSlice {
+						name = "elemstore:" + typeDesc(x.Val.Type())
+					}
 				}
 			case *ssa.MapUpdate:
 				name = "mapupdate"
